@@ -453,6 +453,8 @@ class Cache:
         self._timeout = 0  # Manually handle retries during initialization.
         self._local = threading.local()
         self._txn_id = None
+        self._txn_created = []
+        self._txn_removed = []
 
         if not op.isdir(directory):
             try:
@@ -720,7 +722,6 @@ class Cache:
     @cl.contextmanager
     def _transact(self, retry=False, filename=None):
         sql = self._sql
-        filenames = []
         _disk_remove = self._disk.remove
         tid = threading.get_ident()
         txn_id = self._txn_id
@@ -741,22 +742,44 @@ class Cache:
                         _disk_remove(filename)
                     raise Timeout from None
 
+            # Files written for, and files replaced by, this transaction.
+            # Only the outermost transaction removes them: replaced files
+            # after COMMIT, written files after ROLLBACK.
+
+            self._txn_created = []
+            self._txn_removed = []
+
+        created = self._txn_created
+        removed = self._txn_removed
+        created.append(filename)
+
         try:
-            yield sql, filenames.append
+            yield sql, removed.append
         except BaseException:
             if begin:
                 assert self._txn_id == tid
                 self._txn_id = None
                 sql('ROLLBACK')
+                for name in created:
+                    if name is not None:
+                        _disk_remove(name)
             raise
         else:
             if begin:
                 assert self._txn_id == tid
                 self._txn_id = None
                 sql('COMMIT')
-            for name in filenames:
-                if name is not None:
-                    _disk_remove(name)
+                for name in removed:
+                    if name is not None:
+                        _disk_remove(name)
+
+    def _remove_after_commit(self, filename):
+        # Remove the file of a deleted row now or, inside a transaction of
+        # the calling thread, when that transaction commits.
+        if self._txn_id == threading.get_ident():
+            self._txn_removed.append(filename)
+        else:
+            self._disk.remove(filename)
 
     def set(self, key, value, expire=None, read=False, tag=None, retry=False):
         """Set `key` and `value` item in cache.
@@ -1334,7 +1357,7 @@ class Cache:
             return default
         finally:
             if filename is not None:
-                self._disk.remove(filename)
+                self._remove_after_commit(filename)
 
         if expire_time and tag:
             return value, db_expire_time, db_tag
@@ -1603,7 +1626,7 @@ class Cache:
                 continue
             finally:
                 if name is not None:
-                    self._disk.remove(name)
+                    self._remove_after_commit(name)
             break
 
         if expire_time and tag:
